@@ -288,6 +288,27 @@ def shrink(mod, case, fails):
 
 
 def run_property(modname, tier, seed, replay=None):
+    """Entry point.  A run against another tree (`NIBABEL_REPO=<worktree>`, used for seeded changes and hand-made
+    mutations) regenerates `Generated/<PID>*.lean` from THAT tree; the files of /repo are put back afterwards so that the
+    shared lake workspace never keeps (and nobody commits) obligations generated from a modified tree."""
+    if REPO == '/repo' or replay:
+        return _run_property(modname, tier, seed, replay)
+    import glob
+    pid = modname.upper()
+    gdir = os.path.join(LEAN, 'NibabelModel', 'Generated')
+    before = {f: open(f).read() for f in glob.glob(os.path.join(gdir, pid + '*.lean'))}
+    try:
+        return _run_property(modname, tier, seed, replay)
+    finally:
+        with BuildLock():
+            for f in glob.glob(os.path.join(gdir, pid + '*.lean')):
+                if f not in before:
+                    os.remove(f)
+            for f, content in before.items():
+                write_if_changed(f, content)
+
+
+def _run_property(modname, tier, seed, replay=None):
     t0 = time.time()
     mod = importlib.import_module('props.' + modname.lower())
     pid = mod.PID
@@ -528,8 +549,11 @@ def run_property(modname, tier, seed, replay=None):
         'assumptions': list(getattr(mod, 'ASSUMPTIONS', [])),
         'wall_s': round(wall, 2), 'violations': nviol,
     }
-    os.makedirs(os.path.join(VERIF, 'evidence'), exist_ok=True)
-    with open(os.path.join(VERIF, 'evidence', pid + '.json'), 'w') as f:
+    # evidence/<id>.json describes runs against /repo itself; a run against another tree (seeded change, mutation)
+    # leaves it alone and writes next to the replay files instead
+    evdir = os.path.join(VERIF, 'evidence') if REPO == '/repo' else os.path.join(VERIF, 'replay', 'evidence_other_tree')
+    os.makedirs(evdir, exist_ok=True)
+    with open(os.path.join(evdir, pid + '.json'), 'w') as f:
         json.dump(ev, f, indent=1, default=str)
     say(f'{pid} {tier} seed={seed}: theorems {discharged}/{obligations}, cases {len(cases)} '
         f'(model-compared {len(model_outs)}, distinct non-trivial {len(keys)}), disagreements '
